@@ -378,15 +378,15 @@ set_option linter.unusedVariables false
 theorem handleEditStake_inv' {L L' : Ledger} {s a o : Addr} {x : Nat} {cs : List Nat} {c : Bool} (hi : InvSupply L)
     (hs : InvStaking L) (h : handleEditStake L s a x cs c o = .ok L') : InvStaking L' := by
   obtain ⟨val, L1, hv, _, h1, h2⟩ := handleEditStake_inv h
-  obtain ⟨acc, rfl, e1⟩ := accountSub_ok h1
+  obtain ⟨acc, vs, rfl, e1⟩ := accountSub_ok h1
   have hst := stake_le L a val hv
-  have hs1 : InvStaking { L with accounts := acc } := hs.of_same rfl rfl rfl rfl rfl rfl rfl
-  have hv1 : valGet? { L with accounts := acc } a = some val := hv
+  have hs1 : InvStaking { L with accounts := acc, vesting := vs } := hs.of_same rfl rfl rfl rfl rfl rfl rfl
+  have hv1 : valGet? { L with accounts := acc, vesting := vs } a = some val := hv
   refine updateValidatorStake_inv (old := val) (val := { val with output := o, compound := c }) hs1 hv1 rfl rfl rfl rfl rfl ?_ h2
   obtain ⟨i1, i2⟩ := hi
   show val.stake + _ < U64
   unfold bal at i1
-  have ea : accSum { L with accounts := acc } = NMap.total acc := rfl
+  have ea : accSum { L with accounts := acc, vesting := vs } = NMap.total acc := rfl
   rw [ea] at e1
   have : accSum L = NMap.total L.accounts := rfl
   omega
@@ -430,7 +430,7 @@ theorem markers_fresh {L L' : Ledger} {a : Addr} {v : Validator} (hm : Markers L
 theorem handleStake_inv' {L L' : Ledger} {s a o : Addr} {x : Nat} {cs : List Nat} {d c : Bool}
     (hs : InvStaking L) (h : handleStake L s a x cs d c o = .ok L') : InvStaking L' := by
   obtain ⟨hnone, _, L1, L2, L3, h1, h2, h3, rfl⟩ := handleStake_inv h
-  obtain ⟨acc, rfl, _⟩ := accountSub_ok h1
+  obtain ⟨acc, vs, rfl, _⟩ := accountSub_ok h1
   obtain rfl := addToStaked_ok h2
   have t := hs.tallies
   obtain ⟨nv, hnv⟩ : ∃ nv : Validator, nv = { stake := x, committees := cs, delegate := d, compound := c, output := o } := ⟨_, rfl⟩
@@ -477,14 +477,14 @@ theorem handleStake_inv' {L L' : Ledger} {s a o : Addr} {x : Nat} {cs : List Nat
     obtain ⟨L2', h4, h5⟩ := h3
     obtain rfl := addToDelegated_ok h4
     have sc := sameCore_setDelegations h5
-    obtain ⟨b1, b2, b3⟩ := setDelegations_eff (L := { L with accounts := acc, supply := { L.supply with staked := L.supply.staked + x, delegatedOnly := L.supply.delegatedOnly + x } })
+    obtain ⟨b1, b2, b3⟩ := setDelegations_eff (L := { L with accounts := acc, vesting := vs, supply := { L.supply with staked := L.supply.staked + x, delegatedOnly := L.supply.delegatedOnly + x } })
       ⟨hs.wf.committee, hs.wf.delegated⟩ h5
     exact fin L3 sc.validators sc.unstaking sc.paused b3 sc.staked (by rw [sc.delegatedOnly]; rfl)
       (fun c' => by rw [b1 c']; rfl) (fun c' => by rw [b2 c']; rfl)
   | false =>
     simp only [Bool.false_eq_true, if_false] at h3
     have sc := sameCore_setCommittees h3
-    obtain ⟨b1, b2, b3⟩ := setCommittees_eff (L := { L with accounts := acc, supply := { L.supply with staked := L.supply.staked + x } })
+    obtain ⟨b1, b2, b3⟩ := setCommittees_eff (L := { L with accounts := acc, vesting := vs, supply := { L.supply with staked := L.supply.staked + x } })
       ⟨hs.wf.committee, hs.wf.delegated⟩ h3
     exact fin L3 sc.validators sc.unstaking sc.paused b3 sc.staked (by rw [sc.delegatedOnly]; rfl)
       (fun c' => by rw [b1 c']; rfl) (fun c' => by rw [b2 c']; rfl)
